@@ -53,6 +53,10 @@ fn pt_config(kv: &[(String, String)], root: &str, do_import: bool) -> Config {
         writeback: flag(kv, "writeback"),
         killpriv_v2: flag(kv, "killpriv_v2"),
         xattr: flag(kv, "xattr"),
+        inode_file_handles: flag(kv, "inode_file_handles"),
+        use_host_ino: flag(kv, "use_host_ino"),
+        enable_mntid: flag(kv, "enable_mntid"),
+        allow_direct_io: !flag(kv, "no_direct_io"),
         cache_policy: if flag(kv, "cache_always") { CachePolicy::Always } else { Default::default() },
         ..Default::default()
     }
@@ -74,6 +78,9 @@ fn build(words: &[&str]) -> Result<Srv, String> {
             o.no_opendir = flag(&kv, "no_opendir");
             o.no_open = flag(&kv, "no_open");
             o.seal_size = flag(&kv, "seal_size");
+            o.no_readdir = flag(&kv, "no_readdir");
+            o.killpriv_v2 = flag(&kv, "killpriv_v2");
+            o.no_writeback = !flag(&kv, "writeback");
             let vfs = Vfs::new(o);
             for (a, b) in kv.iter() {
                 if a == "mount" {
@@ -196,7 +203,13 @@ mod cookiefs {
                     None => ents.len(),
                 }
             };
-            for e in ents[start..].iter() {
+            // directories named s* answer with at most two records per request: the host's getdents64 then
+            // returns short batches (fewer records than would fit)
+            let short = inode >= 2 && self.is_dir(inode) && self.dirs[(inode - 2) as usize].0.starts_with('s');
+            for (n, e) in ents[start..].iter().enumerate() {
+                if short && n >= 2 {
+                    break;
+                }
                 match add_entry(DirEntry { ino: e.ino, offset: e.off, type_: e.ty, name: &e.name }) {
                     Ok(0) => break,
                     Ok(_) => {}
@@ -248,6 +261,51 @@ fn serve(mnt: &str, specfile: &str) {
     let _ = se.umount();
 }
 
+// The async twin of handle_message (Server::async_handle_message, feature async-io), polled by a trivial
+// executor: PassthroughFs / Vfs futures never return Pending (they delegate to the sync methods).
+#[cfg(feature = "async-io")]
+fn async_dispatch<'a>(
+    s: &Srv,
+    reader: Reader<'a, ()>,
+    writer: FuseDevWriter<'a, ()>,
+) -> fuse_backend_rs::Result<usize> {
+    fn block_on<F: std::future::Future>(f: F) -> F::Output {
+        use std::task::{Context as TCx, Poll, RawWaker, RawWakerVTable, Waker};
+        fn noop(_: *const ()) {}
+        fn clone(_: *const ()) -> RawWaker {
+            RawWaker::new(std::ptr::null(), &VT)
+        }
+        static VT: RawWakerVTable = RawWakerVTable::new(clone, noop, noop, noop);
+        let waker = unsafe { Waker::from_raw(RawWaker::new(std::ptr::null(), &VT)) };
+        let mut cx = TCx::from_waker(&waker);
+        let mut f = Box::pin(f);
+        let mut spins = 0u32;
+        loop {
+            match f.as_mut().poll(&mut cx) {
+                Poll::Ready(v) => return v,
+                Poll::Pending => {
+                    spins += 1;
+                    if spins > 100000 {
+                        panic!("future never became ready");
+                    }
+                }
+            }
+        }
+    }
+    match s {
+        Srv::P(sv) => block_on(unsafe { sv.async_handle_message(reader, writer.into(), None, None) }),
+        Srv::V(sv) => block_on(unsafe { sv.async_handle_message(reader, writer.into(), None, None) }),
+    }
+}
+#[cfg(not(feature = "async-io"))]
+fn async_dispatch<'a>(
+    _s: &Srv,
+    _reader: Reader<'a, ()>,
+    _writer: FuseDevWriter<'a, ()>,
+) -> fuse_backend_rs::Result<usize> {
+    panic!("built without --features async-io")
+}
+
 fn main() {
     let args: Vec<String> = std::env::args().collect();
     if args.len() == 4 && args[1] == "serve" {
@@ -281,7 +339,8 @@ fn main() {
                     Err(e) => writeln!(out, "error {}", e.replace('\n', " ")).unwrap(),
                 }
             }
-            "msg" => {
+            "msg" | "amsg" => {
+                let is_async = w[0] == "amsg";
                 let cap: usize = w[1].parse().unwrap();
                 let mut req = unhex(w[2]);
                 let mut wbuf = vec![0u8; cap];
@@ -292,6 +351,9 @@ fn main() {
                 let r = catch_unwind(AssertUnwindSafe(|| {
                     let reader = Reader::<()>::from_fuse_buffer(FuseBuf::new(&mut req)).unwrap();
                     let writer = FuseDevWriter::<()>::new(fd, &mut wbuf).unwrap();
+                    if is_async {
+                        return async_dispatch(s, reader, writer);
+                    }
                     match s {
                         Srv::P(sv) => sv.handle_message(reader, writer.into(), None, None),
                         Srv::V(sv) => sv.handle_message(reader, writer.into(), None, None),
